@@ -320,6 +320,11 @@ pub fn gen_input(c: &ScanCase, tp: &[u16]) -> String {
             _ => {}
         }
     }
+    // parol's dedicated pattern for C-style comments runs on when the closing `*/` is directly
+    // followed by `/` (recorded under C15); keep that shape out of the other scanner checks
+    while s.contains("*//") {
+        s = s.replace("*//", "*/ /");
+    }
     s
 }
 
